@@ -26,3 +26,14 @@ Definition w_h1 : pset := [(0%nat, Some 7); (1%nat, Some 9)].
 Definition w_h2 : pset := [(0%nat, Some 8); (1%nat, None)].
 (* ORM: Obj(id=5, a=None, f=None) *)
 Definition w_attrs : pset := [(0%nat, Some 5); (1%nat, None); (6%nat, None)].
+
+(* insert(t).values([{"id":5}, {"id":6, "a":None, "e":7, "f":8}, {"id":7}]) *)
+Definition w_m0 : pset := [(0%nat, Some 5)].
+Definition w_m1 : pset := [(0%nat, Some 6); (1%nat, None); (5%nat, Some 7); (6%nat, Some 8)].
+Definition w_m2 : pset := [(0%nat, Some 7)].
+Definition w_noctx : list col := filter (fun c => match cdef c with CtxCallable _ => false | _ => true end) w_cols.
+(* update(t).ordered_values((f, 9), (a, None)) on the row with id 1 *)
+Definition w_order : list nat := [6%nat; 1%nat].
+Definition w_ord_p : pset := [(0%nat, Some 1); (6%nat, Some 9); (1%nat, None)].
+Definition w_old : pset := [(0%nat, Some 1); (1%nat, Some 10); (2%nat, Some 20); (3%nat, Some 30); (4%nat, Some 40);
+                            (5%nat, Some 50); (6%nat, Some 60)].
